@@ -224,7 +224,7 @@ def main(tier, replay):
     for sh in shapes6():
         for mode in ("2pc", "async", "1pc", "async1pc"):
             for pess in (False, True):
-                for bs in (0, 20):
+                for bs in (0, 3, 7):
                     muts = txnlab.expected_mutations({"ops": sh["ops"], "pessimistic": pess})
                     if mode in ("async", "async1pc") and "lock" in muts.values():
                         continue   # unistore limitation (see C02)
@@ -232,6 +232,12 @@ def main(tier, replay):
     rng.shuffle(base)
     if tier == "quick":
         base = base[:110]
+    # always present: pessimistic shapes whose primary (first locked key) is not the first key of its region, with a batch
+    # limit that cuts between the keys of that region (batch bookkeeping of the primary)
+    for b in [(sh, mode, True, 3) for sh in shapes6() if sh["name"] in ("n4l0o1", "n4l1o1", "n6a") for mode in ("2pc", "async")
+              if not (mode == "async" and "lock" in txnlab.expected_mutations({"ops": sh["ops"], "pessimistic": True}).values())]:
+        if not any(x[0]["name"] == b[0]["name"] and x[1:] == b[1:] for x in base):
+            base.append(b)
     base = txnlab.with_fallbacks(base)
     cov["fallback_shapes"] = sum(1 for b in base if b[-1])
     probes = [txnlab.mk_scenario(f"p{i}", sh, mode, pess, batch_size=bs, causal=(i % 7 == 0), **txnlab.fbkw(fb)) for i, (sh, mode, pess, bs, fb) in enumerate(base)]
@@ -299,7 +305,7 @@ def main(tier, replay):
         from perc_gate import thorough_coqchk
         thorough_coqchk("Verif.Percolator.Props", cov, v)
     cov.update(evaluations=len(allsc), distinct_nontrivial=len(distinct),
-               rule="shapes with 1-6 keys over 1-4 regions x {2pc, async, 1pc} x {optimistic, pessimistic} x commit batch size {default, 20 bytes} x one region error (EpochNotMatch / NotLeader / ServerIsBusy) or split or lost response or a concurrent reader of every key (meets live locks, pushes the primary's min-commit ts) at every prewrite/commit index (batches are re-split), plus pessimistic transactions kept open with a small managed ttl (heart-beats); every trace is judged by the extracted acceptor and by independent python rule predicates incl. the mutation table; distinct non-trivial = scenarios with >= 3 prewrite/commit requests or heart-beats",
+               rule="shapes with 1-6 keys over 1-4 regions x {2pc, async, 1pc} x {optimistic, pessimistic} x commit batch size {default, 3 bytes, 7 bytes} (prewrite batches of 1-2 mutations, commit batches of 2-4 keys) x one region error (EpochNotMatch / NotLeader / ServerIsBusy) or split or lost response or a concurrent reader of every key (meets live locks, pushes the primary's min-commit ts) at every prewrite/commit index (batches are re-split), plus pessimistic transactions kept open with a small managed ttl (heart-beats); every trace is judged by the extracted acceptor and by independent python rule predicates incl. the mutation table; distinct non-trivial = scenarios with >= 3 prewrite/commit requests or heart-beats",
                samples=[{"scenario": sc, "told": r.get("told")} for sc, r in traces[len(probes):len(probes) + 2]] + [{"scenario": hb[0]}], input_distribution=dist)
     rc = v.finish()
     vlib.write_evidence(PID, cov, t0, violations=len(v.violations), level="proof",
